@@ -85,7 +85,7 @@ checks.update({
 checks.update({
  "C13": dict(level="exploration", engine="ENUM", ref="DESIGN.md §5 C13",
    technique="exhaustive enumeration of five product groups (registration x request) against the real authorization endpoint, one-sided acceptance conditions; issued codes carried to the token endpoint",
-   text="G1 response types (8 registrations x 4 grant sets x public x every ordered list of <=3 tokens incl. duplicates/unknown/empty x openid), G2 response modes, G3 state/nonce lengths around the threshold for two entropy settings, G4 redirect_uri presence x openid x flows x grant sets, G5 request objects (14 variants: registered/other/unknown keys, RS/ES/PS/HS/none, tampered, request_uri registered/unregistered/unfetchable/both x 6 registered algorithms): an accepted request satisfies every condition of the statement; access and ID tokens never appear in the query; state is echoed on every redirect; a client without authorization_code never redeems a code; request-object parameters are honoured only for registered key+algorithm; G2 also through pushed requests (response_mode pushed, or appended to the request_uri leg); G6: request objects verified through jwks_uri with the real fetcher and cache (look-alike URIs of two tenants).",
+   text="G1 response types (8 registrations x 4 grant sets x public x every ordered list of <=3 tokens incl. duplicates/unknown/empty x openid), G2 response modes, G3 state/nonce lengths around the threshold for two entropy settings, G4 redirect_uri presence x openid x flows x grant sets, G5 request objects (19 variants incl. expired / not-yet-valid objects, which must be refused with an OAuth 2.0 error, and look-alike request_uri strings: registered/other/unknown keys, RS/ES/PS/HS/none, tampered, request_uri registered/unregistered/unfetchable/both x 6 registered algorithms): an accepted request satisfies every condition of the statement; access and ID tokens never appear in the query; state is echoed on every redirect; a client without authorization_code never redeems a code; request-object parameters are honoured only for registered key+algorithm; G2 also through pushed requests (response_mode pushed, or appended to the request_uri leg); G6: request objects verified through jwks_uri with the real fetcher and cache (look-alike URIs of two tenants).",
    note="G7 covers the cross terms of G1-G4 on three registrations. Don't-care: hybrid code+id_token ID token without implicit grant; unsigned request object when no algorithm is registered."),
 })
 
@@ -110,14 +110,14 @@ checks.update({
    note="Sentinel answers (not-found / inactive) at Get*/Revoke* calls are another store state, not a failure (don't-care). Record equality ignores session expiry fields. The transactional store is context-sensitive: a write issued during an open transaction with a context that does not carry it survives the rollback."),
  "C20": dict(level="exploration", engine="ENUM+FAULT", ref="DESIGN.md §5 C20",
    technique="exhaustive enumeration of error x hostile text x format x debug x writer with re-parsing of the bytes written; scan of every storage call of every flow for usable secrets; storage-error text injection at every storage call",
-   text="38 errors (all exported RFC errors + a plain Go error) x hint/debug text from 16 hostile fragments (pairs in quick, triples in thorough) x legacy/new format x debug exposure x 9 writers: JSON re-parsed, redirects re-parsed (no injected parameter, state round-trips, no CR/LF in headers), form_post pages tokenised (only the expected inputs, no injected element), status matches code, debug detail only when enabled, no-store/no-cache everywhere. Storage: 17 flows (incl. every kind of credential presented in every credential slot of the token, introspection and revocation endpoints) x HMAC/JWT — no key or stored form value equals or contains a client secret, password, PKCE verifier, assertion or complete live code/token. A recognisable storage error text injected at every storage call of 20 flows never reaches the client and the answer carries an RFC error code; the same for the transport error of a failed request_uri fetch; manipulated codes / refresh tokens / device codes are refused with an OAuth 2.0 error and a 4xx status.",
+   text="38 errors (all exported RFC errors + a plain Go error) x hint/debug text from 16 hostile fragments (pairs in quick, triples in thorough) x legacy/new format x debug exposure x 9 writers: JSON re-parsed, redirects re-parsed (no injected parameter, state round-trips, no CR/LF in headers), form_post pages tokenised (only the expected inputs, no injected element), status matches code, debug detail only when enabled, no-store/no-cache everywhere. Storage: 17 flows (incl. every kind of credential presented in every credential slot of the token, introspection and revocation endpoints) x HMAC/JWT — no key or stored form value equals or contains a client secret, password, PKCE verifier, assertion or complete live code/token. A recognisable storage error text injected at every storage call of 20 flows never reaches the client and the answer carries an RFC error code; the same for the transport error of a failed request_uri fetch; manipulated codes / refresh tokens / device codes are refused with an OAuth 2.0 error and a 4xx status; a failing ID-token signing-key provider is answered as server_error.",
    note="Known findings: OpenID Connect sessions keyed by the complete authorization code (storage contract). The user password necessarily reaches Authenticate."),
 })
 
 checks.update({
  "C19": dict(level="model_checking", engine="SCHED", ref="DESIGN.md §5 C19",
    technique="stateless depth-first schedule exploration of the real provider + reference store under a cooperative scheduler with iterative preemption bounding; vector-clock happens-before race detection over shim lock edges and overlay access hooks; brute-force linearizability of store-operation triples",
-   text="23 API scenarios (redeem||redeem, OIDC device poll||poll, introspect||introspect for three session types, first use of every Config getter, refresh||refresh, refresh||revoke||introspect, refresh||revoke, redeem||introspect||authorize, poll||poll, device-auth||poll, PAR-use||PAR-use, authorize||authorize and token||token on a default-constructed and a populated Config, issue||introspect, PAR-push||device-auth, issue||device-auth, mint||mint||mint) at lock granularity (preemption bound 2/1 quick, 3/2 thorough) and at storage-call granularity (all interleavings where feasible, else bound 4/6); plus every multiset of 3 store operations per table (332 triples) from a populated state. Every complete execution: no deadlock, no panic, no unordered conflicting access on instrumented fields, no lock still held after every request returned (leak), no scenario in which nothing ever succeeds (vacuity guard), no duplicate token value, no inactive token handed out without a concurrent invalidation, and for store triples results + final dump equal some sequential permutation.",
+   text="26 API scenarios (redeem||redeem, OIDC device poll||poll, polls after an approval recorded with a fresh session for three session types, introspect||introspect for three session types, first use of every Config getter, refresh||refresh, refresh||revoke||introspect, refresh||revoke, redeem||introspect||authorize, poll||poll, device-auth||poll, PAR-use||PAR-use, authorize||authorize and token||token on a default-constructed and a populated Config, issue||introspect, PAR-push||device-auth, issue||device-auth, mint||mint||mint) at lock granularity (preemption bound 2/1 quick, 3/2 thorough) and at storage-call granularity (all interleavings where feasible, else bound 4/6); plus every multiset of 3 store operations per table (332 triples) from a populated state. Every complete execution: no deadlock, no panic, no unordered conflicting access on instrumented fields, no lock still held after every request returned (leak), no scenario in which nothing ever succeeds (vacuity guard), no duplicate token value, no inactive token handed out without a concurrent invalidation, and for store triples results + final dump equal some sequential permutation. State-based part: no request writes into the spare capacity of a slice of the shared Config.",
    note="Races are decided for fields used inside pointer-receiver methods of ory/fosite types (a field of a stateful standard-library type such as hash.Hash counts as written on every use; map fields are additionally keyed by the map itself, also in value-receiver methods), for *url.URL variables whose RawQuery/Fragment a function assigns, and for package-level variables of slice/array/map/basic types (byte buffers count as written when handed to a call, also through a local slice of them); other memory, and the lazily created JWKS fetcher, are not observed. 2-3 goroutines."),
 })
 
